@@ -844,6 +844,67 @@ def view_cases(tier):
     return out
 
 
+# =========================================================================================================
+# part 4: copy construction gives independent storage for EVERY array the object holds
+# =========================================================================================================
+def _arrays_of(obj, prefix=''):
+    """(path, ndarray) for the object itself (if it is an array) and every array attribute, recursively"""
+    out = []
+    if isinstance(obj, np.ndarray):
+        out.append((prefix or 'self', obj))
+    d = getattr(obj, '__dict__', {})
+    for name, val in sorted(d.items()):
+        if isinstance(val, np.ndarray) or hasattr(val, '__dict__') and type(val).__module__.startswith('pySDC'):
+            out += _arrays_of(val, f'{prefix}.{name}' if prefix else name)
+    return out
+
+
+def copy_case(arg):
+    import copy as _copy
+
+    kind, n, how = arg
+    out = []
+    if kind in ('particles', 'fields', 'acceleration'):
+        T = {'particles': particles, 'fields': fields, 'acceleration': acceleration}[kind]
+        a = T(((3, n), None, np.dtype('float64')))
+        for _, arr in _arrays_of(a):
+            arr[...] = np.arange(arr.size, dtype=float).reshape(arr.shape) + 1.5
+    else:
+        T = {'mesh': mesh, 'imex_mesh': imex_mesh, 'comp2_mesh': comp2_mesh}[kind]
+        a = T(((n,), None, np.dtype('float64')), val=0.0)
+        a.view(np.ndarray)[...] = np.arange(a.size, dtype=float).reshape(a.shape) + 1.5
+    sig = {'part': 'copies', 'type': kind, 'how': how}
+    try:
+        b = {'constructor': lambda: T(a), 'copy.copy': lambda: _copy.copy(a), 'copy.deepcopy': lambda: _copy.deepcopy(a)}[how]()
+    except Exception as e:  # noqa: BLE001
+        out.append(({**sig, 'kind': 'copy_raised'}, {'error': f'{type(e).__name__}: {e}'[:160]}))
+        return out
+    A, B = dict(_arrays_of(a)), dict(_arrays_of(b))
+    if sorted(A) != sorted(B):
+        out.append(({**sig, 'kind': 'copy_has_other_attributes'}, {'original': sorted(A), 'copy': sorted(B)}))
+        return out
+    for path in sorted(A):
+        if A[path].shape != B[path].shape or np.any(A[path] != B[path]):
+            out.append(({**sig, 'kind': 'copy_values_differ', 'attribute': path}, {}))
+            continue
+        if how == 'copy.copy':
+            continue  # a shallow copy may share
+        before = A[path].copy()
+        shares = bool(np.shares_memory(A[path], B[path]))
+        B[path][...] = -3.25
+        if shares or np.any(A[path] != before):
+            out.append(({**sig, 'kind': 'copy_shares_storage', 'attribute': path}, {'shares_memory': shares, 'original_changed_by_writing_into_the_copy': bool(np.any(A[path] != before))}))
+    return out
+
+
+def run_copies(rep):
+    cases = [(k, n, how) for k in ('mesh', 'imex_mesh', 'comp2_mesh', 'particles', 'fields', 'acceleration') for n in (1, 3) for how in ('constructor', 'copy.deepcopy', 'copy.copy')]
+    for arg in cases:
+        for sig, det in copy_case(arg):
+            rep.violation(sig, det, {'part': 'copies', 'arg': list(arg)})
+    return len(cases)
+
+
 def run_views(rep, tier):
     cases = view_cases(tier)
     n = 0
@@ -865,6 +926,7 @@ def run(rep, tier):
     runs = _c13_runs.run_level(rep, tier)
     nviews = run_views(rep, tier)
     rep.coverage['component_view_cases'] = nviews
+    rep.coverage['copy_cases'] = run_copies(rep)
     rep.coverage.update(
         {
             'evaluations': tot['nodes'] + nev + runs['runs'],
@@ -901,6 +963,10 @@ def replay(rep, case):
             if sig['axiom'] == case['axiom']:
                 rep.violation({**sig, 'family': FAMILY[sig['type']], 'dtype': rp['dtype'], 'n': rp['n']}, det, rp)
                 break
+    elif part == 'copies':
+        a = case['arg']
+        for sig, det in copy_case((a[0], int(a[1]), a[2])):
+            rep.violation(sig, det, case)
     elif part == 'views':
         a = case['arg']
         for sig, det in view_case((a[0], tuple(a[1]), a[2], a[3], a[4])):
